@@ -22,7 +22,13 @@ EXPLANATION = ('Whole-library call graph (direct calls, class-hierarchy resoluti
 SCOPE = ('src/kernel/', 'src/s4u/', 'include/simgrid/s4u/', 'include/simgrid/kernel/', 'src/simgrid/', 'src/xbt/', 'include/xbt/')
 K = 'simgrid::kernel::'
 ORDERED = ('std::set', 'std::multiset', 'std::map', 'std::multimap')
-UNORDERED = ('std::unordered_set', 'std::unordered_multiset', 'std::unordered_map', 'std::unordered_multimap')
+UNORDERED = ('std::unordered_set', 'std::unordered_multiset', 'std::unordered_map', 'std::unordered_multimap',
+             'boost::unordered_set', 'boost::unordered_multiset', 'boost::unordered_map', 'boost::unordered_multimap',
+             'boost::unordered::unordered_set', 'boost::unordered::unordered_multiset', 'boost::unordered::unordered_map', 'boost::unordered::unordered_multimap',
+             'boost::unordered_flat_set', 'boost::unordered_flat_map', 'boost::unordered::unordered_flat_set', 'boost::unordered::unordered_flat_map',
+             'boost::unordered_node_set', 'boost::unordered_node_map')
+FLAT_ORDERED = ('boost::container::flat_set', 'boost::container::flat_map', 'boost::container::flat_multiset', 'boost::container::flat_multimap',
+                'boost::container::set', 'boost::container::map')
 
 SINK_EXACT = {
     K + 'EngineImpl::add_actor_to_run_list', K + 'EngineImpl::add_actor_to_run_list_no_check', K + 'actor::ActorImpl::simcall_answer',
@@ -50,9 +56,9 @@ def addr_ordered(tstr):
     name, args = cg.parse_template(tstr)
     if not args:
         return None
-    if name in ORDERED:
+    if name in ORDERED or name in FLAT_ORDERED:
         key = args[0]
-        cmpi = 1 if name in ('std::set', 'std::multiset') else 2
+        cmpi = 1 if name.endswith('set') else 2
         cmpt = args[cmpi] if len(args) > cmpi else 'std::less<%s>' % key
         if cg.pointer_like(key) and cmpt.replace(' ', '') in ('std::less<%s>' % key.replace(' ', ''), 'std::less<void>', 'std::less<>',
                                                                  'std::greater<%s>' % key.replace(' ', ''), 'std::greater<void>'):
@@ -62,7 +68,7 @@ def addr_ordered(tstr):
             if any(cg.pointer_like(a) for a in inner) and cmpt.startswith(('std::less<', 'std::greater<')):
                 return '%s keyed by %s (contains a pointer) with %s: ties are ordered by address' % (name, key, cmpt.split('<')[0])
         return None
-    if name in UNORDERED:
+    if name in UNORDERED or 'unordered' in name.rsplit('::', 1)[-1] or 'hash_' in name.rsplit('::', 1)[-1]:      # any hashed container, whatever the library
         key = args[0]
         if cg.pointer_like(key):
             return '%s keyed by the pointer type %s: bucket order follows the hash of addresses' % (name, key)
